@@ -1,3 +1,90 @@
+import itertools
+import random
+import threading
+
+import networkx as nx
+
+import uberjob._execution.run_function_on_graph as eng
+from harness import engine_explore as ee
 from harness.props._engine_common import make
 
-explore, search, replay = make({"C10"})
+
+def max_antichain(g):
+    """Largest set of pairwise independent nodes (brute force; graphs here have <= 10 nodes)."""
+    nodes = list(g.nodes())
+    reach = {n: nx.descendants(g, n) for n in nodes}
+    best = []
+    for r in range(len(nodes), 0, -1):
+        if r <= len(best):
+            break
+        for comb in itertools.combinations(nodes, r):
+            if all(b not in reach[a] and a not in reach[b] for a, b in itertools.combinations(comb, 2)):
+                best = list(comb)
+                break
+    return best
+
+
+def rendezvous(case_graph, nodes_A, workers, scheduler, timeout=4.0):
+    """Real threads: calls in the antichain A wait until min(workers, |A|) of them are executing at once."""
+    target = min(workers, len(nodes_A))
+    cond = threading.Condition()
+    state = {"in": 0, "peak": 0, "ok": False}
+    A = set(nodes_A)
+
+    def fn(n):
+        if n not in A:
+            return
+        with cond:
+            state["in"] += 1
+            state["peak"] = max(state["peak"], state["in"])
+            if state["in"] >= target:
+                state["ok"] = True
+                cond.notify_all()
+            else:
+                cond.wait_for(lambda: state["ok"], timeout=timeout)
+            state["in"] -= 1
+
+    eng.run_function_on_graph(case_graph, fn, worker_count=workers, max_errors=0, scheduler=scheduler)
+    return state["peak"], target
+
+
+def parallel_runs(ctx, replay=None):
+    """`whenever at least max_workers independent calls are ready that many do run in parallel` and never more."""
+    if replay is not None:
+        case = replay["case"]
+        g = ee.build_graph(case)
+        peak, target = rendezvous(g, replay["antichain"], case["workers"], case["scheduler"])
+        return None if peak == target else f"only {peak} of {target} independent ready calls ran in parallel"
+    rng = random.Random(ctx.seed * 13 + 3)
+    n_cases = 40 if ctx.tier == "quick" else 600
+    viol, done, nontriv = [], 0, 0
+    for _ in range(n_cases):
+        n = rng.randint(2, 9)
+        shape = rng.random()
+        if shape < 0.3:      # a spine with one leaf per spine node: narrow generations, wide antichain
+            k = rng.randint(2, 5)
+            nodes = list(range(2 * k))
+            edges = [(i, i + 1) for i in range(k - 1)] + [(i, k + i) for i in range(k)]
+            case = {"n": 2 * k, "nodes": nodes, "edges": edges}
+        else:
+            g0 = ee.gen_graph(rng, n, p_edge=rng.choice([0.1, 0.25, 0.4]))
+            case = {"n": n, "nodes": list(g0.nodes()), "edges": [(u, v) for u, v, _ in g0.edges(keys=True)]}
+        g = ee.build_graph(case)
+        A = max_antichain(g)
+        w = rng.choice([2, 3, 4, len(A), len(A) + 1])
+        case.update(workers=w, max_errors=0, scheduler=rng.choice(["default", "random"]), failing={})
+        peak, target = rendezvous(g, A, w, case["scheduler"])
+        done += 1
+        nontriv += target >= 2
+        if peak < target:
+            viol.append({"property": "C10", "what": f"only {peak} of {target} independent ready calls ran in parallel (max_workers={w})",
+                         "case": case, "antichain": A, "replay_fn": "parallel_runs"})
+        elif peak > w:
+            viol.append({"property": "C10", "what": f"{peak} calls ran concurrently with max_workers={w}", "case": case,
+                         "antichain": A, "replay_fn": "parallel_runs"})
+        if viol:
+            break
+    return {"violations": viol, "disagreements": [], "coverage": {"rendezvous_runs": done, "rendezvous_nontrivial": nontriv}}
+
+
+explore, search, replay = make({"C10"}, extra=parallel_runs)
